@@ -1,33 +1,78 @@
 //! C03 / C04 / C09: the real `CircuitBreakerLayer` (with and without fallback) over the scripted inner service.
 //!
 //! header options (defaults leave old op files their meaning):
-//!   listen=0   the breaker is built with NO event listener at all: the log has no `transition` lines, the breaker is observed
-//!              only through results, `state()` / metrics probes and the inner calls
+//!   listen=0   the breaker is built with NO `on_state_transition` listener: the log has no `transition` lines, the breaker is
+//!              observed only through results, `state()` / metrics probes and the inner calls
 //!   early=<k>  (with `fallback=1`) bit 0: a clone of the plain breaker taken BEFORE `with_fallback` is kept (an operator's /
 //!              health check's handle) and every manual override and probe goes through that earlier clone; bit 1: the fallback
 //!              is attached only when the first request arrives — overrides and probes before that act on the plain breaker
 //!   tick=us    one clock tick is 1 µs: `wait`, `wdur`, `slow` are in ticks (`world::ticks`); the breaker is timed by
 //!              `std::time::Instant` alone. Scripted latencies (`inner=`, `fb=`) stay in MILLISECONDS: they are tokio timers,
 //!              which fire at the first millisecond boundary >= start + latency.
+//!   preset=<builder|fn|standard|fast_fail|tolerant>   where the builder comes from: `CircuitBreakerLayer::builder()` (default),
+//!              `circuit_breaker_builder()`, or one of the preset constructors. With `preset=` (or `chain=`) only the settings
+//!              that are written are applied on top of it; without either the classic keys are all applied with the harness
+//!              defaults (fr=1/2 size=10 wait=1000 permitted=1), as before.
+//!   chain=<i1,i2,…>  the builder chain itself, left to right (replaces fr/size/wait/permitted/wtype/wdur/min/slow/sr/cls/listen):
+//!              fr:a/b size:n wait:n|max perm:n wtype:time|count wdur:n min:n slow:n sr:a/b name:x
+//!              lis:tr|slow|permitted|rejected|success|failure   (on_state_transition — logs `transition a b` —, on_slow_call —
+//!              meta line `#slow <ticks>` —, on_call_permitted, … : listeners that do nothing)
+//!              cls:k   `failure_classifier(..)` (k as the header's `cls`: 0 errors, 1 only error kind 1, 2 errors + odd tags)
+//!              clsr:k  `classify_response(..)`: the wrapped service then has `Error = Infallible` and answers
+//!                      `Ok(Result<Resp, IErr>)` (errors encoded in the response); at most one `clsr`, and no `cls`, per chain
+//!              `chain=-` = no setter at all.
+//!   via=<layer_fn|layer|for_request>   how a service is made from the layer value: `layer.layer_fn(inner)` (default),
+//!              `Layer::layer(&layer, inner)`, `layer.for_request::<Req>().layer(inner)` (deprecated path)
+//!
+//! per-operation options:
+//!   svc=<k>    (arrive / manual / probe; default 0) several services built from ONE layer value: service k is built lazily, the
+//!              first time it is named, from the same layer (odd k: from a clone of the layer taken at that moment, i.e. after
+//!              other services were built); every service wraps its own scripted inner service. `manual`/`probe` lines of a
+//!              service k > 0 are logged with ` svc=k` appended.
+//!   h=<j>      (arrive) the request is made on the PERSISTENT handle j of the service (a clone taken lazily at its first use and
+//!              kept: `h.ready(); h.call(); … h.ready(); h.call()`) instead of a fresh clone that is dropped at once
+//!
+//! manual operations beyond force_open / force_closed / reset:
+//!   inner_down / inner_up / inner_fail   readiness of the wrapped service of that breaker: `poll_ready` is Pending (the waker
+//!              is kept and woken by `inner_up`) / passes to the scripted service / fails with `IErr{9,0}` (`clsr` chains:
+//!              `Infallible` cannot fail, treated as down). A request arriving while it is not ready: `result c notready`
+//!              (the caller gives up) / `result c err:inner9:0`. A call future already created keeps its (ready) instance.
+//!   trigger_unhealthy / trigger_healthy   `HealthTriggerable` (cargo feature `health-integration`): synchronous, spawns a task
+//!              that applies `force_open` / `force_closed`. The task is spawned on a runtime of its own that only runs when
+//!              told to, so that WHEN the scheduler gets to it is an operation:
+//!   yield      the tasks spawned so far by the triggers of that service run (in spawn order)
 use crate::world::*;
 use futures::future::BoxFuture;
 use futures::FutureExt;
+use std::cell::RefCell;
 use std::collections::BTreeMap;
+use std::convert::Infallible;
 use std::future::Future;
 use std::pin::Pin;
-use std::sync::Mutex;
-use std::task::{Context, Poll};
+use std::rc::Rc;
+use std::sync::{Arc, Mutex};
+use std::task::{Context, Poll, Waker};
 use std::time::Duration;
-use tower::Service;
+use tower::{Layer, Service};
 use tower_resilience_circuitbreaker::{
-    CircuitBreakerError, CircuitBreakerLayer, CircuitMetrics, CircuitState, SlidingWindowType,
+    circuit_breaker_builder, CircuitBreaker, CircuitBreakerConfigBuilder, CircuitBreakerError, CircuitBreakerLayer, CircuitMetrics,
+    CircuitState, DefaultClassifier, FailureClassifierTrait, FnClassifier, SlidingWindowType,
 };
+use tower_resilience_core::HealthTriggerable;
+
+type Services = Rc<RefCell<BTreeMap<u64, One>>>;
 
 pub struct Adapter {
-    call: Box<dyn FnMut(Req) -> Option<CallFut>>,
+    svcs: Services,
+    make: Rc<dyn Fn(u64) -> One>,
+}
+
+/// one service built from the layer
+struct One {
+    call: Box<dyn FnMut(Req, Option<u64>) -> Option<CallFut>>,
     ctl: Box<dyn Fn(&str) -> String>,
-    /// a self-contained caller (owns a clone of the breaker) for requests made from inside a destructor (`manual ondrop`)
-    req: Requester,
+    gate: GateCtl,
+    tasks: Tasks,
 }
 
 /// Scripted behaviour of the fallback of caller `c` (`arrive <c> … fb=<lat>:<ok|errK|panic|never>`, default `0:ok`):
@@ -74,8 +119,16 @@ impl Drop for FbFut {
     }
 }
 
-fn frac(kv: &Kv, k: &str, d: (u64, u64)) -> f64 {
-    let s = kv.str(k, &format!("{}/{}", d.0, d.1));
+fn fallback_future(req: Req) -> FbFut {
+    let step = FB.lock().unwrap_or_else(|e| e.into_inner()).remove(&req.c).unwrap_or(Step { lat: 0, out: Out::Ok });
+    log(format!("fallback_call {}", req.c));
+    let sleep = if step.lat > 0 { Some(Box::pin(tokio::time::sleep(Duration::from_millis(step.lat)))) } else { None };
+    FbFut { sleep, c: req.c, tag: req.tag, out: step.out, done: false }
+}
+
+fn frac_of(s: &str, d: (u64, u64)) -> f64 {
+    let dflt = format!("{}/{}", d.0, d.1);
+    let s = if s.is_empty() { dflt.as_str() } else { s };
     let (a, b) = s.split_once('/').unwrap_or(("1", "2"));
     a.parse::<f64>().unwrap_or(1.0) / b.parse::<f64>().unwrap_or(2.0)
 }
@@ -92,22 +145,155 @@ pub fn render(r: Result<Resp, CircuitBreakerError<IErr>>) -> String {
     match r {
         Ok(x) if x.v >= 900_000 => format!("ok:fallback:{}", x.v - 900_000),
         Ok(x) => format!("ok:{}", x.v),
-        Err(CircuitBreakerError::Inner(e)) => format!("err:inner{}:{}", e.kind, e.v),
-        Err(CircuitBreakerError::OpenCircuit) => "err:open".into(),
+        // through the error's own accessors (`is_circuit_open`, `into_inner`), the way callers tell the two apart
+        Err(e) => {
+            let open = e.is_circuit_open();
+            match (open, e.into_inner()) {
+                (true, None) => "err:open".into(),
+                (false, Some(i)) => format!("err:inner{}:{}", i.kind, i.v),
+                (o, i) => format!("err:inconsistent:open={}:inner={}", o as u8, i.is_some() as u8),
+            }
+        }
     }
 }
 
-fn views(state: CircuitState, sync: CircuitState, is_open: bool, m: CircuitMetrics) -> String {
+/// the same grammar for a service whose errors are encoded in the response (`classify_response`)
+fn render_r(r: Result<Result<Resp, IErr>, CircuitBreakerError<Infallible>>) -> String {
+    match r {
+        Ok(x) => render(x.map_err(CircuitBreakerError::Inner)),
+        Err(CircuitBreakerError::OpenCircuit) => "err:open".into(),
+        Err(CircuitBreakerError::Inner(never)) => match never {},
+    }
+}
+
+fn views(state: CircuitState, sync: CircuitState, is_open: bool, m: CircuitMetrics, http: u16, health: &str) -> String {
     format!(
-        "views state={} sync={} is_open={} mstate={} total={} fail={} succ={} slow={}",
-        st(state), st(sync), is_open as u8, st(m.state), m.total_calls, m.failure_count, m.success_count, m.slow_call_count
+        "views state={} sync={} is_open={} mstate={} total={} fail={} succ={} slow={} http={} health={}",
+        st(state), st(sync), is_open as u8, st(m.state), m.total_calls, m.failure_count, m.success_count, m.slow_call_count, http, health
     )
 }
 
 const BLOCKED: &str = "blocked";
 
+// ------------------------------------------------------------------ readiness of the wrapped service
+
+#[derive(Default)]
+struct GateSt {
+    /// 0 up, 1 down (pending), 2 failing
+    mode: u8,
+    wakers: Vec<Waker>,
+}
+#[derive(Clone, Default)]
+struct GateCtl(Arc<Mutex<GateSt>>);
+impl GateCtl {
+    fn set(&self, mode: u8) {
+        let ws = {
+            let mut g = self.0.lock().unwrap_or_else(|e| e.into_inner());
+            g.mode = mode;
+            if mode == 1 { Vec::new() } else { std::mem::take(&mut g.wakers) }
+        };
+        for w in ws {
+            w.wake();
+        }
+    }
+}
+
+/// the scripted inner service behind a readiness gate operated by `manual inner_down / inner_up / inner_fail`
+#[derive(Clone)]
+struct Gate {
+    inner: Inner,
+    ctl: GateCtl,
+}
+impl Gate {
+    fn gate(&mut self, cx: &mut Context<'_>, can_fail: bool) -> Poll<Result<(), IErr>> {
+        {
+            let mut g = self.ctl.0.lock().unwrap_or_else(|e| e.into_inner());
+            if g.mode == 1 || (g.mode == 2 && !can_fail) {
+                g.wakers.push(cx.waker().clone());
+                return Poll::Pending;
+            }
+            if g.mode == 2 {
+                return Poll::Ready(Err(IErr { kind: 9, v: 0 }));
+            }
+        }
+        self.inner.poll_ready(cx)
+    }
+}
+impl Service<Req> for Gate {
+    type Response = Resp;
+    type Error = IErr;
+    type Future = InnerFut;
+    fn poll_ready(&mut self, cx: &mut Context<'_>) -> Poll<Result<(), IErr>> {
+        self.gate(cx, true)
+    }
+    fn call(&mut self, req: Req) -> InnerFut {
+        self.inner.call(req)
+    }
+}
+
+/// the same service with its errors encoded in the response: `Error = Infallible` (what `classify_response` is for)
+#[derive(Clone)]
+struct Infal(Gate);
+impl Service<Req> for Infal {
+    type Response = Result<Resp, IErr>;
+    type Error = Infallible;
+    type Future = futures::future::Map<InnerFut, fn(Result<Resp, IErr>) -> Result<Result<Resp, IErr>, Infallible>>;
+    fn poll_ready(&mut self, cx: &mut Context<'_>) -> Poll<Result<(), Infallible>> {
+        match self.0.gate(cx, false) {
+            Poll::Pending => Poll::Pending,
+            Poll::Ready(_) => Poll::Ready(Ok(())),
+        }
+    }
+    fn call(&mut self, req: Req) -> Self::Future {
+        self.0.inner.call(req).map(Ok as fn(Result<Resp, IErr>) -> Result<Result<Resp, IErr>, Infallible>)
+    }
+}
+
+// ------------------------------------------------------------------ tasks spawned by the health triggers
+
+/// `HealthTriggerable::trigger_*` are synchronous and `tokio::spawn` a task that takes the breaker's lock and applies the
+/// override. The task is spawned on a current-thread runtime of its own (created at the first trigger) which runs only
+/// inside `run` (`manual yield`): until then the task has been spawned and not yet scheduled.
+#[derive(Clone, Default)]
+struct Tasks(Rc<RefCell<Option<tokio::runtime::Runtime>>>);
+impl Tasks {
+    fn within<R>(&self, f: impl FnOnce() -> R) -> R {
+        let mut slot = self.0.borrow_mut();
+        let rt = slot.get_or_insert_with(|| tokio::runtime::Builder::new_current_thread().build().expect("task runtime"));
+        let _g = rt.enter();
+        f()
+    }
+    fn run(&self) {
+        let slot = self.0.borrow();
+        if let Some(rt) = slot.as_ref() {
+            // a runtime cannot be driven from inside another one's task: a helper thread does it while this one waits
+            let _busy = Busy::new();
+            std::thread::scope(|s| {
+                s.spawn(|| {
+                    rt.block_on(async {
+                        for _ in 0..8 {
+                            tokio::task::yield_now().await;
+                        }
+                    })
+                });
+            });
+        }
+    }
+}
+impl Drop for Tasks {
+    fn drop(&mut self) {
+        if Rc::strong_count(&self.0) == 1 {
+            if let Some(rt) = self.0.borrow_mut().take() {
+                rt.shutdown_background();
+            }
+        }
+    }
+}
+
+// ------------------------------------------------------------------ operating one breaker
+
 macro_rules! ctl_on {
-    ($svc:expr, $what:expr) => {{
+    ($svc:expr, $what:expr, $tasks:expr) => {{
         let svc = $svc;
         match $what {
             // an observer / operator is never made to wait by the breaker: each of these takes the breaker's mutex
@@ -115,214 +301,396 @@ macro_rules! ctl_on {
             "force_open" => svc.force_open().now_or_never().map_or(BLOCKED.to_string(), |_| String::new()),
             "force_closed" => svc.force_closed().now_or_never().map_or(BLOCKED.to_string(), |_| String::new()),
             "reset" => svc.reset().now_or_never().map_or(BLOCKED.to_string(), |_| String::new()),
-            _ => match (svc.state().now_or_never(), svc.metrics().now_or_never()) {
-                (Some(state), Some(m)) => views(state, svc.state_sync(), svc.is_open(), m),
+            "trigger_unhealthy" => {
+                $tasks.within(|| HealthTriggerable::trigger_unhealthy(svc));
+                String::new()
+            }
+            "trigger_healthy" => {
+                $tasks.within(|| HealthTriggerable::trigger_healthy(svc));
+                String::new()
+            }
+            "views" => match (svc.state().now_or_never(), svc.metrics().now_or_never()) {
+                (Some(state), Some(m)) => views(state, svc.state_sync(), svc.is_open(), m, svc.http_status(), svc.health_status()),
                 _ => BLOCKED.to_string(),
             },
+            _ => String::new(),
         }
     }};
 }
 
-macro_rules! controls {
-    ($svc:expr) => {{
-        let svc = $svc.clone();
-        Box::new(move |what: &str| -> String { ctl_on!(&svc, what) }) as Box<dyn Fn(&str) -> String>
+/// a request the way a caller makes it: `poll_ready` once, then `call`
+macro_rules! request_on {
+    ($s:expr, $req:expr, $render:expr) => {{
+        let s = $s;
+        let req: Req = $req;
+        let c = req.c;
+        match poll_ready_once(s) {
+            Poll::Ready(Ok(())) => Some(held(s.call(req), $render)),
+            Poll::Ready(Err(e)) => {
+                log(format!("result {} {}", c, $render(Err(e))));
+                None
+            }
+            Poll::Pending => {
+                log(format!("result {} notready", c));
+                None
+            }
+        }
     }};
 }
 
-/// The fallback variant. `early` bit 0: manual overrides and probes go through a clone of the plain breaker taken before
-/// `with_fallback`; bit 1: `with_fallback` happens when the first request arrives, until then the operator acts on the plain
-/// breaker. Whatever the order, there is ONE breaker: the fallback service shares the state of the breaker it was made from.
-macro_rules! with_fb {
-    ($plain:expr, $fb:expr, $early:expr) => {{
-        let early: u64 = $early;
-        let plain = $plain;
-        let fb = $fb;
-        let operator = if early & 1 == 1 { Some(plain.clone()) } else { None };
-        let pending = std::rc::Rc::new(std::cell::RefCell::new(Some(plain)));
-        let attached = std::rc::Rc::new(std::cell::RefCell::new(None));
-        let attach: std::rc::Rc<dyn Fn()> = {
-            let (pending, attached) = (pending.clone(), attached.clone());
-            std::rc::Rc::new(move || {
-                let p = pending.borrow_mut().take();
-                if let Some(p) = p {
-                    *attached.borrow_mut() = Some(p.with_fallback(fb));
-                }
-            })
-        };
-        if early & 2 == 0 {
-            attach();
-        }
+/// One service made from the layer: the plain breaker, or — `fallback=1` — the fallback variant. `early` bit 0: manual
+/// overrides and probes go through a clone of the plain breaker taken before `with_fallback`; bit 1: `with_fallback` happens
+/// when the first request arrives, until then the operator acts on the plain breaker. Whatever the order, there is ONE
+/// breaker per service: the fallback service shares the state of the breaker it was made from.
+fn one<S, C, Rsp, E>(
+    plain: CircuitBreaker<S, C>,
+    gate: GateCtl,
+    fallback: bool,
+    early: u64,
+    fbwrap: fn(Result<Resp, IErr>) -> Result<Rsp, E>,
+    render: fn(Result<Rsp, CircuitBreakerError<E>>) -> String,
+) -> One
+where
+    S: Service<Req, Response = Rsp, Error = E> + Clone + Send + Sync + 'static,
+    S::Future: Send + 'static,
+    C: FailureClassifierTrait<Rsp, E> + Send + Sync + 'static,
+    Rsp: Send + Sync + 'static,
+    E: Send + Sync + 'static,
+{
+    let tasks = Tasks::default();
+    if !fallback {
         let call = {
-            let (attach, attached) = (attach.clone(), attached.clone());
-            Box::new(move |req: Req| -> Option<CallFut> {
-                attach();
-                let mut s = attached.borrow().as_ref().expect("attached").clone();
-                let c = req.c;
-                match poll_ready_once(&mut s) {
-                    std::task::Poll::Ready(Ok(())) => {}
-                    _ => {
-                        log(format!("result {} notready", c));
-                        return None;
-                    }
+            let svc = plain.clone();
+            let mut handles: BTreeMap<u64, CircuitBreaker<S, C>> = BTreeMap::new();
+            Box::new(move |req: Req, h: Option<u64>| -> Option<CallFut> {
+                match h {
+                    Some(j) => request_on!(handles.entry(j).or_insert_with(|| svc.clone()), req, render),
+                    None => request_on!(&mut svc.clone(), req, render),
                 }
-                let fut = s.call(req);
-                Some(held(fut, render))
-            }) as Box<dyn FnMut(Req) -> Option<CallFut>>
+            }) as Box<dyn FnMut(Req, Option<u64>) -> Option<CallFut>>
         };
         let ctl = {
-            let (pending, attached) = (pending.clone(), attached.clone());
-            Box::new(move |what: &str| -> String {
-                if let Some(o) = operator.as_ref() {
-                    return ctl_on!(o, what);
-                }
-                if let Some(p) = pending.borrow().as_ref() {
-                    return ctl_on!(p, what);
-                }
-                let a = attached.borrow();
-                ctl_on!(a.as_ref().expect("attached"), what)
-            }) as Box<dyn Fn(&str) -> String>
+            let tasks = tasks.clone();
+            Box::new(move |what: &str| -> String { ctl_on!(&plain, what, tasks) }) as Box<dyn Fn(&str) -> String>
         };
-        let req = {
-            let (attach, attached) = (attach.clone(), attached.clone());
-            std::rc::Rc::new(move |c: usize, kv: &Kv| -> Option<CallFut> {
-                if let Some(step) = kv.get("fb").and_then(|s| parse_plan(s).pop_front()) {
-                    FB.lock().unwrap_or_else(|e| e.into_inner()).insert(c, step);
-                }
-                attach();
-                let mut s = attached.borrow().as_ref().expect("attached").clone();
-                match poll_ready_once(&mut s) {
-                    std::task::Poll::Ready(Ok(())) => {}
-                    _ => {
-                        log(format!("result {} notready", c));
-                        return None;
-                    }
-                }
-                Some(held(s.call(Req::new(c, kv)), render))
-            }) as Requester
-        };
-        Adapter { call, ctl, req }
-    }};
+        return One { call, ctl, gate, tasks };
+    }
+    let fb = move |req: Req| -> BoxFuture<'static, Result<Rsp, E>> { Box::pin(fallback_future(req).map(fbwrap)) };
+    let operator = if early & 1 == 1 { Some(plain.clone()) } else { None };
+    let pending = Rc::new(RefCell::new(Some(plain)));
+    let attached = Rc::new(RefCell::new(None));
+    let attach: Rc<dyn Fn()> = {
+        let (pending, attached) = (pending.clone(), attached.clone());
+        Rc::new(move || {
+            let p = pending.borrow_mut().take();
+            if let Some(p) = p {
+                *attached.borrow_mut() = Some(p.with_fallback(fb));
+            }
+        })
+    };
+    if early & 2 == 0 {
+        attach();
+    }
+    let call = {
+        let (attach, attached) = (attach.clone(), attached.clone());
+        let mut handles = BTreeMap::new();
+        Box::new(move |req: Req, h: Option<u64>| -> Option<CallFut> {
+            attach();
+            let fresh = || attached.borrow().as_ref().expect("attached").clone();
+            match h {
+                Some(j) => request_on!(handles.entry(j).or_insert_with(fresh), req, render),
+                None => request_on!(&mut fresh(), req, render),
+            }
+        }) as Box<dyn FnMut(Req, Option<u64>) -> Option<CallFut>>
+    };
+    let ctl = {
+        let tasks = tasks.clone();
+        Box::new(move |what: &str| -> String {
+            if let Some(o) = operator.as_ref() {
+                return ctl_on!(o, what, tasks);
+            }
+            if let Some(p) = pending.borrow().as_ref() {
+                return ctl_on!(p, what, tasks);
+            }
+            let a = attached.borrow();
+            ctl_on!(a.as_ref().expect("attached"), what, tasks)
+        }) as Box<dyn Fn(&str) -> String>
+    };
+    One { call, ctl, gate, tasks }
 }
 
-macro_rules! caller {
-    ($svc:expr) => {{
-        let svc = $svc.clone();
-        Box::new(move |req: Req| -> Option<CallFut> {
-            let mut s = svc.clone();
-            let c = req.c;
-            match poll_ready_once(&mut s) {
-                std::task::Poll::Ready(Ok(())) => {}
-                _ => {
-                    log(format!("result {} notready", c));
-                    return None;
-                }
-            }
-            let fut = s.call(req);
-            Some(held(fut, render))
-        }) as Box<dyn FnMut(Req) -> Option<CallFut>>
-    }};
+// ------------------------------------------------------------------ the builder chain
+
+type Bld<C> = CircuitBreakerConfigBuilder<C>;
+/// a classifier type that is `Clone` (the layer's `layer_fn`, `for_request` and `Clone` require it of the classifier)
+type ClsFn = fn(&Result<Resp, IErr>) -> bool;
+
+/// custom classifiers: 1 = only error kind 1 is a failure; 2 = errors and responses to odd tags are failures; other = errors
+fn classifier(cls: u64) -> ClsFn {
+    fn errors(r: &Result<Resp, IErr>) -> bool {
+        r.is_err()
+    }
+    fn kind1(r: &Result<Resp, IErr>) -> bool {
+        matches!(r, Err(e) if e.kind == 1)
+    }
+    fn errors_and_odd(r: &Result<Resp, IErr>) -> bool {
+        match r {
+            Err(_) => true,
+            Ok(x) => x.tag % 2 == 1,
+        }
+    }
+    match cls {
+        1 => kind1,
+        2 => errors_and_odd,
+        _ => errors,
+    }
 }
 
-/// `manual ondrop c=<c> by=<c2> <arrive words>`: c2 arrives — clone of the breaker, `poll_ready`, `call`, exactly as
-/// `arrive` does — from inside the destructor of the unfinished inner call of c, i.e. while a cancelled call (a trial of a
-/// half-open episode, or an ordinary call) is still being torn down inside the wrapped service.
-macro_rules! requester {
-    ($svc:expr) => {{
-        let svc = $svc.clone();
-        std::rc::Rc::new(move |c: usize, kv: &Kv| -> Option<CallFut> {
-            if let Some(step) = kv.get("fb").and_then(|s| parse_plan(s).pop_front()) {
-                FB.lock().unwrap_or_else(|e| e.into_inner()).insert(c, step);
-            }
-            let mut s = svc.clone();
-            match poll_ready_once(&mut s) {
-                std::task::Poll::Ready(Ok(())) => {}
-                _ => {
-                    log(format!("result {} notready", c));
-                    return None;
-                }
-            }
-            Some(held(s.call(Req::new(c, kv)), render))
-        }) as Requester
-    }};
+fn num(v: &str) -> u64 {
+    v.parse().unwrap_or(0)
+}
+
+/// a setter that does not change the builder's type
+fn plain_setter<C>(b: Bld<C>, item: &str) -> Bld<C> {
+    let (k, v) = item.split_once(':').unwrap_or((item, ""));
+    match k {
+        "fr" => b.failure_rate_threshold(frac_of(v, (1, 2))),
+        "size" => b.sliding_window_size(num(v) as usize),
+        // `wait:max`: "stay open until a manual reset" — the largest representable duration
+        "wait" => b.wait_duration_in_open(if v == "max" { Duration::MAX } else { ticks(num(v)) }),
+        "perm" => b.permitted_calls_in_half_open(num(v) as usize),
+        "wtype" => b.sliding_window_type(if v == "time" { SlidingWindowType::TimeBased } else { SlidingWindowType::CountBased }),
+        "wdur" => b.sliding_window_duration(ticks(num(v))),
+        "min" => b.minimum_number_of_calls(num(v) as usize),
+        "slow" => b.slow_call_duration_threshold(ticks(num(v))),
+        "sr" => b.slow_call_rate_threshold(frac_of(v, (1, 1))),
+        "name" => b.name(v),
+        "lis" => match v {
+            "tr" => b.on_state_transition(|from, to| log(format!("transition {} {}", st(from), st(to)))),
+            "slow" => b.on_slow_call(|d| log_raw(format!("#slow {}", d.as_nanos() as u64 / tick_ns().max(1)))),
+            "permitted" => b.on_call_permitted(|_| {}),
+            "rejected" => b.on_call_rejected(|| {}),
+            "success" => b.on_success(|_| {}),
+            "failure" => b.on_failure(|_| {}),
+            _ => b,
+        },
+        _ => b,
+    }
+}
+
+/// the classic header keys as the chain the adapter has always applied (the classifier last)
+fn classic_chain(kv: &Kv, all: bool) -> Vec<String> {
+    let mut v = Vec::new();
+    let mut put = |k: &str, item: &str, d: Option<&str>| {
+        if let Some(x) = kv.get(k).or(if all { d } else { None }) {
+            v.push(format!("{}:{}", item, x));
+        }
+    };
+    put("fr", "fr", Some("1/2"));
+    put("size", "size", Some("10"));
+    put("wait", "wait", Some("1000"));
+    put("permitted", "perm", Some("1"));
+    drop(put);
+    if kv.u64("listen", 1) != 0 {
+        v.push("lis:tr".into());
+    }
+    if kv.str("wtype", "count") == "time" {
+        v.push("wtype:time".into());
+        v.push(format!("wdur:{}", kv.u64("wdur", 1000)));
+    }
+    if let Some(m) = kv.opt_u64("min") {
+        v.push(format!("min:{}", m));
+    }
+    if let Some(n) = kv.opt_u64("slow") {
+        v.push(format!("slow:{}", n));
+        v.push(format!("sr:{}", kv.str("sr", "1/1")));
+    }
+    let cls = kv.u64("cls", 0);
+    if cls != 0 {
+        v.push(format!("cls:{}", cls));
+    }
+    v
+}
+
+fn start(kv: &Kv) -> Bld<DefaultClassifier> {
+    match kv.str("preset", "builder").as_str() {
+        "fn" => circuit_breaker_builder(),
+        "standard" => CircuitBreakerLayer::standard(),
+        "fast_fail" => CircuitBreakerLayer::fast_fail(),
+        "tolerant" => CircuitBreakerLayer::tolerant(),
+        _ => CircuitBreakerLayer::builder(),
+    }
+}
+
+/// how a service is made from a layer whose classifier type is `Clone` (`layer_fn`, `for_request` and `Clone` of the layer
+/// all need that): by `via=`; odd k: from a clone of the layer taken now, i.e. after other services were built from the original
+fn maker<C, S>(layer: CircuitBreakerLayer<C>, via: String) -> impl Fn(u64, S) -> CircuitBreaker<S, C>
+where
+    C: Clone,
+    CircuitBreakerLayer<C>: Layer<S, Service = CircuitBreaker<S, C>>,
+{
+    move |k: u64, inner: S| {
+        let cloned;
+        let lay = if k % 2 == 1 {
+            cloned = layer.clone();
+            &cloned
+        } else {
+            &layer
+        };
+        #[allow(deprecated)]
+        let plain = match via.as_str() {
+            "layer" => Layer::layer(lay, inner),
+            "for_request" => lay.for_request::<Req>().layer(inner),
+            _ => lay.layer_fn(inner),
+        };
+        plain
+    }
+}
+
+/// everything after the layer value exists: services are made from it on demand
+fn finish<C, S, Rsp, E>(
+    mk: impl Fn(u64, S) -> CircuitBreaker<S, C> + 'static,
+    kv: &Kv,
+    wrap: fn(Gate) -> S,
+    fbwrap: fn(Result<Resp, IErr>) -> Result<Rsp, E>,
+    render: fn(Result<Rsp, CircuitBreakerError<E>>) -> String,
+) -> Adapter
+where
+    S: Service<Req, Response = Rsp, Error = E> + Clone + Send + Sync + 'static,
+    S::Future: Send + 'static,
+    C: FailureClassifierTrait<Rsp, E> + Send + Sync + 'static,
+    Rsp: Send + Sync + 'static,
+    E: Send + Sync + 'static,
+{
+    let fallback = kv.u64("fallback", 0) == 1;
+    let early = kv.u64("early", 0);
+    let make: Rc<dyn Fn(u64) -> One> = Rc::new(move |k: u64| -> One {
+        let gate = GateCtl::default();
+        let inner = wrap(Gate { inner: Inner::new(), ctl: gate.clone() });
+        one(mk(k, inner), gate, fallback, early, fbwrap, render)
+    });
+    let svcs: Services = Rc::new(RefCell::new(BTreeMap::new()));
+    svcs.borrow_mut().insert(0, make(0));
+    Adapter { svcs, make }
+}
+
+enum Fam {
+    D(Bld<DefaultClassifier>),
+    F(Bld<FnClassifier<ClsFn>>),
 }
 
 impl Adapter {
     pub fn new(kv: &Kv) -> Adapter {
         FB.lock().unwrap_or_else(|e| e.into_inner()).clear();
-        let cls = kv.u64("cls", 0);
-        let mut b = CircuitBreakerLayer::builder()
-            .failure_rate_threshold(frac(kv, "fr", (1, 2)))
-            .sliding_window_size(kv.u64("size", 10) as usize)
-            // `wait=max`: "stay open until a manual reset" — the largest representable duration
-            .wait_duration_in_open(if kv.str("wait", "") == "max" { Duration::MAX } else { ticks(kv.u64("wait", 1000)) })
-            .permitted_calls_in_half_open(kv.u64("permitted", 1) as usize);
-        if kv.u64("listen", 1) != 0 {
-            b = b.on_state_transition(|from, to| log(format!("transition {} {}", st(from), st(to))));
-        }
-        if kv.str("wtype", "count") == "time" {
-            b = b
-                .sliding_window_type(SlidingWindowType::TimeBased)
-                .sliding_window_duration(ticks(kv.u64("wdur", 1000)));
-        }
-        if let Some(m) = kv.opt_u64("min") {
-            b = b.minimum_number_of_calls(m as usize);
-        }
-        if let Some(n) = kv.opt_u64("slow") {
-            b = b
-                .slow_call_duration_threshold(ticks(n))
-                .slow_call_rate_threshold(frac(kv, "sr", (1, 1)));
-        }
-        let fallback = kv.u64("fallback", 0) == 1;
-        let early = kv.u64("early", 0);
-        let fb = |req: Req| -> BoxFuture<'static, Result<Resp, IErr>> {
-            let step = FB.lock().unwrap_or_else(|e| e.into_inner()).remove(&req.c).unwrap_or(Step { lat: 0, out: Out::Ok });
-            log(format!("fallback_call {}", req.c));
-            let sleep = if step.lat > 0 { Some(Box::pin(tokio::time::sleep(Duration::from_millis(step.lat)))) } else { None };
-            Box::pin(FbFut { sleep, c: req.c, tag: req.tag, out: step.out, done: false })
+        let items: Vec<String> = match kv.get("chain") {
+            Some(ch) => ch.split(',').filter(|x| !x.is_empty() && *x != "-").map(|x| x.to_string()).collect(),
+            None => classic_chain(kv, kv.get("preset").is_none()),
         };
-        if cls == 0 {
-            let svc = b.build().layer_fn(Inner::new());
-            if fallback {
-                with_fb!(svc, fb, early)
-            } else {
-                Adapter { call: caller!(svc), ctl: controls!(svc), req: requester!(svc) }
+        if let Some(ix) = items.iter().position(|x| x.starts_with("clsr:")) {
+            // errors encoded in the response: `classify_response` fixes the service's error type to `Infallible`
+            let mut b = start(kv);
+            for it in &items[..ix] {
+                b = plain_setter(b, it);
             }
-        } else {
-            // custom classifiers: 1 = only error kind 1 is a failure; 2 = errors and responses to odd tags are failures
-            let b = b.failure_classifier(move |r: &Result<Resp, IErr>| match (cls, r) {
-                (1, Err(e)) => e.kind == 1,
-                (1, Ok(_)) => false,
-                (_, Err(_)) => true,
-                (_, Ok(x)) => x.tag % 2 == 1,
-            });
-            let svc = b.build().layer_fn(Inner::new());
-            if fallback {
-                with_fb!(svc, fb, early)
-            } else {
-                Adapter { call: caller!(svc), ctl: controls!(svc), req: requester!(svc) }
+            let cls = classifier(num(&items[ix][5..]));
+            let mut b = b.classify_response(move |r: &Result<Resp, IErr>| cls(r));
+            for it in &items[ix + 1..] {
+                b = plain_setter(b, it);
             }
+            // the classifier type `classify_response` produces is opaque and not `Clone`: the layer can be neither cloned nor
+            // used through `layer_fn` / `for_request`; `Layer::layer` is the one way to make a service from it
+            let layer = b.build();
+            return finish(move |_k: u64, inner: Infal| Layer::layer(&layer, inner), kv, Infal, Ok, render_r);
         }
+        let mut fam = Fam::D(start(kv));
+        for it in &items {
+            fam = match (fam, it.strip_prefix("cls:")) {
+                (Fam::D(b), Some(k)) => Fam::F(b.failure_classifier(classifier(num(k)))),
+                (Fam::F(b), Some(k)) => Fam::F(b.failure_classifier(classifier(num(k)))),
+                (Fam::D(b), None) => Fam::D(plain_setter(b, it)),
+                (Fam::F(b), None) => Fam::F(plain_setter(b, it)),
+            };
+        }
+        fn same(g: Gate) -> Gate {
+            g
+        }
+        fn keep(r: Result<Resp, IErr>) -> Result<Resp, IErr> {
+            r
+        }
+        match fam {
+            Fam::D(b) => finish(maker(b.build(), kv.str("via", "layer_fn")), kv, same, keep, render),
+            Fam::F(b) => finish(maker(b.build(), kv.str("via", "layer_fn")), kv, same, keep, render),
+        }
+    }
+
+    fn with<R>(&self, k: u64, f: impl FnOnce(&mut One) -> R) -> R {
+        let fresh = if self.svcs.borrow().contains_key(&k) { None } else { Some((self.make)(k)) };
+        let mut m = self.svcs.borrow_mut();
+        if let Some(o) = fresh {
+            m.insert(k, o);
+        }
+        f(m.get_mut(&k).expect("service"))
+    }
+}
+
+fn request(svcs: &Services, make: &Rc<dyn Fn(u64) -> One>, c: usize, kv: &Kv) -> Option<CallFut> {
+    if let Some(step) = kv.get("fb").and_then(|s| parse_plan(s).pop_front()) {
+        FB.lock().unwrap_or_else(|e| e.into_inner()).insert(c, step);
+    }
+    let k = kv.u64("svc", 0);
+    let fresh = if svcs.borrow().contains_key(&k) { None } else { Some(make(k)) };
+    let mut m = svcs.borrow_mut();
+    if let Some(o) = fresh {
+        m.insert(k, o);
+    }
+    let one = m.get_mut(&k).expect("service");
+    (one.call)(Req::new(c, kv), kv.opt_u64("h"))
+}
+
+fn suffix(kv: &Kv) -> String {
+    match kv.u64("svc", 0) {
+        0 => String::new(),
+        k => format!(" svc={}", k),
     }
 }
 
 impl Mw for Adapter {
     fn arrive(&mut self, c: usize, kv: &Kv) -> Option<CallFut> {
-        if let Some(step) = kv.get("fb").and_then(|s| parse_plan(s).pop_front()) {
-            FB.lock().unwrap_or_else(|e| e.into_inner()).insert(c, step);
-        }
-        (self.call)(Req::new(c, kv))
+        request(&self.svcs, &self.make, c, kv)
     }
+    /// `manual ondrop c=<c> by=<c2> <arrive words>`: c2 arrives — `poll_ready`, `call` on a clone (or persistent handle) of
+    /// the breaker, exactly as `arrive` does — from inside the destructor of the unfinished inner call of c, i.e. while a
+    /// cancelled call (a trial of a half-open episode, or an ordinary call) is still being torn down inside the wrapped service.
     fn requester(&self) -> Option<Requester> {
-        Some(self.req.clone())
+        let (svcs, make) = (self.svcs.clone(), self.make.clone());
+        Some(Rc::new(move |c: usize, kv: &Kv| request(&svcs, &make, c, kv)))
     }
-    fn probe(&mut self, what: &str, _kv: &Kv) {
-        let s = (self.ctl)(what);
-        log(format!("probe {}", s));
+    fn probe(&mut self, _what: &str, kv: &Kv) {
+        let s = self.with(kv.u64("svc", 0), |o| (o.ctl)("views"));
+        log(format!("probe {}{}", s, suffix(kv)));
     }
-    fn manual(&mut self, what: &str, _kv: &Kv) {
-        log(format!("manual {}", what));
-        if (self.ctl)(what) == BLOCKED {
+    fn manual(&mut self, what: &str, kv: &Kv) {
+        log(format!("manual {}{}", what, suffix(kv)));
+        let blocked = self.with(kv.u64("svc", 0), |o| match what {
+            "inner_up" => {
+                o.gate.set(0);
+                false
+            }
+            "inner_down" => {
+                o.gate.set(1);
+                false
+            }
+            "inner_fail" => {
+                o.gate.set(2);
+                false
+            }
+            "yield" => {
+                o.tasks.run();
+                false
+            }
+            _ => (o.ctl)(what) == BLOCKED,
+        });
+        if blocked {
             log(format!("manual_blocked {}", what));
         }
     }
